@@ -21,7 +21,7 @@ def menu(nc):
     return out
 
 
-def mk(name, shares, extra_market=False, index_first=False, shock=True, drift=True, noexec_first=False, nested=False, arb=False, halt=False):
+def mk(name, shares, extra_market=False, index_first=False, shock=True, drift=True, noexec_first=False, nested=False, arb=False, halt=False, requires=False):
     nc = len(shares)
     markets = [dict(name="M%d" % i, shares=sh, drift=(2.0 ** -7 if i == 1 and drift else 0.0)) for i, sh in enumerate(shares)]
     markets.append(dict(name="IDX", cls="ProbeIndexMarket", components=["M%d" % i for i in range(nc)]))
@@ -72,6 +72,9 @@ def mk(name, shares, extra_market=False, index_first=False, shock=True, drift=Tr
                 ms.insert(0, m)
 
     cfg = mkcfg(sessions, markets=markets, agents=ags, events=ev)
+    if requires:
+        # the deprecated "requires" key (markets that must exist before the index) names one market more than "markets"
+        cfg["IDX"]["requires"] = list(cfg["IDX"]["markets"]) + ["X"]
     if arb:
         # built-in agents that read the index market while the run goes on: an arbitrage agent that may trade the index
         # and only its first component (threshold too high to ever trade), and an FCN agent on the index
@@ -98,6 +101,7 @@ def scenarios(tier):
     sc["nested:2-5-1+X"] = mk("nested:2-5-1+X", (2, 5, 1), nested=True, extra_market=True, noexec_first=True)
     sc["arbitrage_agent_partial_access:2-2"] = mk("arbitrage_agent_partial_access:2-2", (2, 2), arb=True)
     sc["arbitrage_agent_partial_access:5-5-5+X"] = mk("arbitrage_agent_partial_access:5-5-5+X", (5, 5, 5), arb=True, extra_market=True, noexec_first=True)
+    sc["requires_names_an_extra_market:1-2+X"] = mk("requires_names_an_extra_market:1-2+X", (1, 2), extra_market=True, requires=True)
     sc["component_halted:1-2"] = mk("component_halted:1-2", (1, 2), halt=True)
     sc["component_halted:2-5-1+X"] = mk("component_halted:2-5-1+X", (2, 5, 1), halt=True, extra_market=True)
     sc["index_first:1-2-5"] = mk("index_first:1-2-5", (1, 2, 5), index_first=True)
